@@ -154,7 +154,9 @@ def _verify_once(repo, workdir, name, mode, roots, tag, extra=()):
         lines = text.split('\n')
         for d in comp:
             clause = lines[d['line'] - 1].strip() if d['line'] and d['line'] - 1 < len(lines) else ''
-            r.failed.append(dict(obligation='%s#data[%s]' % (data_ids[0], clause[:100]), kind='data', function=data_ids[0], item=None,
+            # several tables in one unit: name the one whose function name (first word) occurs in the failing assertion
+            did = next((i for i in data_ids if re.search(r'fn (\w+?)_', i) and re.search(r'fn (\w+?)_', i).group(1) in clause), data_ids[0])
+            r.failed.append(dict(obligation='%s#data[%s]' % (did, clause[:100]), kind='data', function=did, item=None,
                                  line=d['line'], message=d['msg'], mode=mode, text='\n'.join(d['text'][:14])))
         r.status = 'failed'
         r.errors = max(r.errors, len(comp))
